@@ -434,6 +434,56 @@ func c04Concurrent(bound int) vh.Unit {
 	}}
 }
 
+// wallet signatures are hex strings, with or without a 0x prefix: acceptance must not depend on
+// what the signature's own digits happen to be (leading zeros, all letters, ...) - 200 different
+// signatures per encoding and endpoint
+func c04WalletEncodings() vh.Unit {
+	name := "wallet-signature-encodings"
+	cast := vh.StdCast()
+	return vh.Unit{Name: name, Run: func(u *vh.U) {
+		W1, C1 := cast.ByName["W1"], cast.ByName["C1"]
+		vsched.ResetClock(0)
+		pw := vh.NewPoolWorld(vh.PoolConfig{Driver: vh.Memory})
+		for _, e := range c04States[2] {
+			vh.PoolEvent(pw, cast, e)
+		}
+		ctx := vh.CtxWith(pw.Host("conn-w").Service())
+		nonce := vsched.Base().UnixNano() + int64(3600e9) + 20000
+		firstDigits := map[byte]int{}
+		for i := 0; i < 200; i++ {
+			for _, ep := range []string{"pool_addNode", "pool_withdraw"} {
+				for _, prefix := range []string{"", "0x"} {
+					nonce++
+					var param interface{}
+					if ep == "pool_addNode" {
+						param = C1.NodeID
+					}
+					call := vh.NewCall(ep, W1, nonce, param)
+					raw := strings.TrimPrefix(call.Sig, "0x")
+					call.Sig = prefix + raw
+					firstDigits[raw[0]]++
+					var err error
+					p := vh.Recover(func() { _, err = call.Invoke(pw, ctx) })
+					u.R.Evaluations++
+					u.R.States++
+					u.R.Transitions++
+					u.R.Traces++
+					if p != "" {
+						u.Violate("c04/"+ep+"/panic/valid-shape", fmt.Sprintf("signature %s...: panic: %s", call.Sig[:10], p), nil)
+					} else if vh.IsRefused(err) {
+						u.Violate("c04/"+ep+"/valid-request-refused", fmt.Sprintf("a correctly signed fresh %s whose signature is written %q... was refused: %v", ep, call.Sig[:12], err), nil)
+					}
+				}
+			}
+		}
+		u.Observe(fmt.Sprintf("distinct first digits of the signatures: %d", len(firstDigits)))
+		if firstDigits['0'] == 0 {
+			u.Note("no signature with a leading zero digit among those generated")
+		}
+		u.Sample("pool_addNode / pool_withdraw signed 200 times each, signature written with and without 0x")
+	}}
+}
+
 func init() {
 	vh.Register(&vh.Check{
 		ID: "C04", Level: "model_checking",
@@ -448,7 +498,7 @@ func init() {
 			for _, e := range vh.SignedEndpoints {
 				us = append(us, c04Unit(e))
 			}
-			us = append(us, c04Legacy(), c04ValidShapes())
+			us = append(us, c04Legacy(), c04ValidShapes(), c04WalletEncodings())
 			b := 2
 			if tier == "thorough" {
 				b = 3
